@@ -17,10 +17,14 @@ package skiplist
 // `exact` gives by a step-by-step argument that the level-0 chain from the head visits exactly the
 // members, in order - which is what All/Scan prove with their loop invariants.
 //@ ghost SLMem (Array Int (Array Int Bool))
+// ownership across lists: ElList[node] is the list a node belongs to, ArrOwner[array id] the node whose
+// pointer array it is (so nodes of different lists, and their arrays, are different objects)
+//@ ghost ElList (Array Int Int)
+//@ ghost ArrOwner (Array Int Int)
 //@ ghost SLW Int
 //@ define slIn(s, x) = SLMem[ref(s)][ref(x)]
 //@ define slHdr(s) = s != nil && s.head != nil && s.maxLevel >= 1 && 1 <= s.level && s.level <= s.maxLevel && len(s.head.next) == s.maxLevel && SLMem[ref(s)][ref(s.head)] && !SLMem[ref(s)][0]
-//@ define slNodes(s) = forall(P_skiplist_Element(x), slIn(s, x) ==> (0 < ref(x) && ref(x) < alloc && len(x.next) >= 1 && len(x.next) <= s.maxLevel && offof(x.next) == 0 && arrid(x.next) < alloc && (x != s.head ==> (wf(x.Entry.Key) && len(x.next) <= s.level))), trig(slIn(s, x)))
+//@ define slNodes(s) = forall(P_skiplist_Element(x), slIn(s, x) ==> (0 < ref(x) && ref(x) < alloc && ElList[ref(x)] == ref(s) && ArrOwner[arrid(x.next)] == ref(x) && len(x.next) >= 1 && len(x.next) <= s.maxLevel && offof(x.next) == 0 && arrid(x.next) < alloc && (x != s.head ==> (wf(x.Entry.Key) && len(x.next) <= s.level))), trig(slIn(s, x)))
 //@ define slLinks(s) = forall(P_skiplist_Element(x), Int(l), (slIn(s, x) && 0 <= l && l < len(x.next) && x.next[l] != nil) ==> (slIn(s, x.next[l]) && x.next[l] != s.head && l < len(x.next[l].next) && (x != s.head ==> cmp(x.Entry.Key, x.next[l].Entry.Key) < 0)), trig(x.next[l]))
 //@ define slPairs(s) = forall(P_skiplist_Element(x), P_skiplist_Element(y), (slIn(s, x) && slIn(s, y) && x != y) ==> (arrid(x.next) != arrid(y.next) && ((y != s.head && (x == s.head || cmp(x.Entry.Key, y.Entry.Key) < 0)) ==> (x.next[0] != nil && cmp(x.next[0].Entry.Key, y.Entry.Key) <= 0)) && ((x != s.head && y != s.head) ==> cmp(x.Entry.Key, y.Entry.Key) != 0)), trig(slIn(s, x), slIn(s, y)))
 //@ define SL(s) = slHdr(s) && slNodes(s) && slLinks(s) && slPairs(s)
@@ -112,11 +116,14 @@ package skiplist
 //@ func skiplist.New -> r
 //@ props C17 C01
 //@ requires maxLevel >= 1
-//@ assigns SLMem
+//@ assigns SLMem, ElList, ArrOwner
 //@ ensures SL(r) && r.maxLevel == maxLevel && ref(r) >= old(alloc) && ref(r.head) >= old(alloc)
 //@ ensures forall(Int(x), SLMem[ref(r)][x] ==> x == ref(r.head), trig(SLMem[ref(r)][x]))
 //@ ensures forall(Int(l), l != ref(r) ==> SLMem[l] == old(SLMem)[l], trig(SLMem[l]))
 //@ at_exit exit: ghost SLMem = store(SLMem, ref(r), store(emptyset, ref(r.head), true))
+//@ at_exit exit: ghost ElList = store(ElList, ref(r.head), ref(r))
+//@ at_exit exit: ghost ArrOwner = store(ArrOwner, arrid(r.head.next), ref(r.head))
+//@ ensures forall(Int(x), x < old(alloc) ==> ElList[x] == old(ElList)[x], trig(ElList[x])) && forall(Int(a), a < old(alloc) ==> ArrOwner[a] == old(ArrOwner)[a], trig(ArrOwner[a]))
 //
 // Set: afterwards the list holds a member SLW whose key compares equal to entry.Key and whose value
 // and tombstone flag are the given ones; it is the member that was there (key and version kept) or
@@ -125,7 +132,13 @@ package skiplist
 //@ func (*skiplist.SkipList).Set
 //@ props C17 C01
 //@ requires SL(s) && wf(entry.Key)
-//@ assigns SLMem, SLW, heap:F|skiplist.SkipList.*, heap:F|skiplist.Element.*, heap:A|*skiplist.Element
+//@ assigns SLMem, SLW, ElList, ArrOwner, heap:F|skiplist.SkipList.size, heap:F|skiplist.SkipList.level, heap:F|skiplist.Element.*, heap:A|*skiplist.Element
+//@ ensures forall(P_skiplist_SkipList(l), l != s ==> (l.level == old(l.level) && l.size == old(l.size)), trig(l.level))
+// frame across lists: nodes of other lists, their pointer arrays and the other lists' node sets are untouched
+//@ ensures forall(P_skiplist_Element(x), (ElList[ref(x)] != ref(s) && ref(x) < old(alloc)) ==> (x.Entry == old(x.Entry) && x.next == old(x.next)), trig(ElList[ref(x)]))
+//@ ensures forall(Int(a), Int(j), (a < old(alloc) && ElList[ArrOwner[a]] != ref(s)) ==> elemat(*skiplist.Element, a, j) == old(elemat(*skiplist.Element, a, j)), trig(elemat(*skiplist.Element, a, j)))
+//@ ensures forall(Int(x), x < old(alloc) ==> ElList[x] == old(ElList)[x], trig(ElList[x])) && forall(Int(a), a < old(alloc) ==> ArrOwner[a] == old(ArrOwner)[a], trig(ArrOwner[a]))
+//@ ensures forall(Int(l), l != ref(s) ==> SLMem[l] == old(SLMem)[l], trig(SLMem[l]))
 //@ ensures SL(s) && s.maxLevel == old(s.maxLevel) && s.head == old(s.head)
 //@ ensures SLMem[ref(s)][SLW] && SLW != ref(s.head) && cmp(cast(P_skiplist_Element, SLW).Entry.Key, entry.Key) == 0 && cast(P_skiplist_Element, SLW).Entry.Value == entry.Value && cast(P_skiplist_Element, SLW).Entry.Tombstone == entry.Tombstone
 //@ ensures old(SLMem)[ref(s)][SLW] ==> (cast(P_skiplist_Element, SLW).Entry.Key == old(cast(P_skiplist_Element, now(SLW)).Entry.Key) && cast(P_skiplist_Element, SLW).Entry.Version == old(cast(P_skiplist_Element, now(SLW)).Entry.Version))
@@ -134,11 +147,13 @@ package skiplist
 //@ ensures forall(Int(x), SLMem[ref(s)][x] ==> (old(SLMem)[ref(s)][x] || x == SLW), trig(SLMem[ref(s)][x]))
 //@ ensures forall(P_skiplist_Element(x), (old(SLMem)[ref(s)][ref(x)] && ref(x) != SLW) ==> x.Entry == old(x.Entry), trig(SLMem[ref(s)][ref(x)]))
 //@ loop 0:
+//@   invariant forall(Int(a), Int(j), a < old(alloc) ==> elemat(*skiplist.Element, a, j) == old(elemat(*skiplist.Element, a, j)), trig(elemat(*skiplist.Element, a, j))) && ElList == old(ElList) && ArrOwner == old(ArrOwner)
 //@   invariant SL(s) && SLMem == old(SLMem) && len(update) == s.maxLevel && arrid(update) >= old(alloc) && offof(update) == 0
 //@   invariant 0 - 1 <= i && i < s.maxLevel && i + 1 <= len(curr.next) && slIn(s, curr) && (curr != s.head ==> cmp(curr.Entry.Key, entry.Key) < 0)
 //@   invariant i == 0 - 1 ==> curr == update[0]
 //@   invariant all(j, i + 1, s.maxLevel, slU(s, update, entry.Key, j))
 //@ loop 1:
+//@   invariant forall(Int(a), Int(j), a < old(alloc) ==> elemat(*skiplist.Element, a, j) == old(elemat(*skiplist.Element, a, j)), trig(elemat(*skiplist.Element, a, j))) && ElList == old(ElList) && ArrOwner == old(ArrOwner)
 //@   invariant SL(s) && SLMem == old(SLMem) && len(update) == s.maxLevel && arrid(update) >= old(alloc) && offof(update) == 0
 //@   invariant 0 <= i && i < s.maxLevel && i < len(curr.next) && slIn(s, curr) && (curr != s.head ==> cmp(curr.Entry.Key, entry.Key) < 0)
 //@   invariant all(j, i + 1, s.maxLevel, slU(s, update, entry.Key, j))
@@ -147,13 +162,17 @@ package skiplist
 // the new node becomes a member as soon as it exists; the representation invariant is restored level
 // by level (loop 3): level 0 first, which is where `exact` is re-established
 //@ after_assign assign e: ghost SLW = ref(e)
+//@ after_assign assign e: ghost ElList = store(ElList, ref(e), ref(s))
+//@ after_assign assign e: ghost ArrOwner = store(ArrOwner, arrid(e.next), ref(e))
 //@ after_assign assign e: ghost SLMem = store(SLMem, ref(s), store(SLMem[ref(s)], ref(e), true))
 //@ define slPairsBut(s, e, k) = forall(P_skiplist_Element(x), P_skiplist_Element(y), (slIn(s, x) && slIn(s, y) && x != y) ==> (arrid(x.next) != arrid(y.next) && ((y != s.head && (x == s.head || cmp(x.Entry.Key, y.Entry.Key) < 0) && (k > 0 || (x != e && y != e))) ==> (x.next[0] != nil && cmp(x.next[0].Entry.Key, y.Entry.Key) <= 0)) && ((x != s.head && y != s.head) ==> cmp(x.Entry.Key, y.Entry.Key) != 0)), trig(slIn(s, x), slIn(s, y)))
 //@ loop 2:
+//@   invariant forall(Int(a), Int(j), a < old(alloc) ==> elemat(*skiplist.Element, a, j) == old(elemat(*skiplist.Element, a, j)), trig(elemat(*skiplist.Element, a, j))) && ElList == old(ElList) && ArrOwner == old(ArrOwner)
 //@   invariant SL(s) && SLMem == old(SLMem) && len(update) == s.maxLevel && arrid(update) >= old(alloc) && offof(update) == 0 && 1 <= level && level <= s.maxLevel && s.level == old(s.level) && s.level <= i && i <= level
 //@   invariant all(j, 0, s.maxLevel, slU(s, update, entry.Key, j))
 //@   invariant forall(P_skiplist_Element(y), (slIn(s, y) && y != s.head) ==> cmp(y.Entry.Key, entry.Key) != 0, trig(slIn(s, y)))
 //@ loop 3:
+//@   invariant forall(Int(a), Int(j), (a < old(alloc) && ElList[ArrOwner[a]] != ref(s)) ==> elemat(*skiplist.Element, a, j) == old(elemat(*skiplist.Element, a, j)), trig(elemat(*skiplist.Element, a, j))) && forall(Int(x), x < old(alloc) ==> ElList[x] == old(ElList)[x], trig(ElList[x])) && forall(Int(a), a < old(alloc) ==> ArrOwner[a] == old(ArrOwner)[a], trig(ArrOwner[a]))
 //@   invariant slHdr(s) && slNodes(s) && slLinks(s) && slPairsBut(s, e, rangeint_iter) && s.maxLevel == old(s.maxLevel) && s.head == old(s.head)
 //@   invariant len(update) == s.maxLevel && arrid(update) >= old(alloc) && offof(update) == 0 && 1 <= level && level <= s.level && len(e.next) == level && e != nil && e != s.head && ref(e) >= old(alloc) && arrid(e.next) >= old(alloc) && arrid(e.next) != arrid(update) && slIn(s, e) && e.Entry == entry && SLW == ref(e)
 //@   invariant forall(Int(x), SLMem[ref(s)][x] <==> (old(SLMem)[ref(s)][x] || x == ref(e)), trig(SLMem[ref(s)][x]))
@@ -166,7 +185,8 @@ package skiplist
 //@ func (*skiplist.SkipList).Reset -> r
 //@ props C17 C01
 //@ requires s != nil && s.maxLevel >= 1
-//@ assigns SLMem
+//@ assigns SLMem, ElList, ArrOwner
+//@ ensures forall(Int(x), x < old(alloc) ==> ElList[x] == old(ElList)[x], trig(ElList[x])) && forall(Int(a), a < old(alloc) ==> ArrOwner[a] == old(ArrOwner)[a], trig(ArrOwner[a]))
 //@ ensures SL(r) && r.maxLevel == s.maxLevel && ref(r) >= old(alloc) && ref(r.head) >= old(alloc)
 //@ ensures forall(Int(x), SLMem[ref(r)][x] ==> x == ref(r.head), trig(SLMem[ref(r)][x]))
 //@ ensures forall(Int(l), l != ref(r) ==> SLMem[l] == old(SLMem)[l], trig(SLMem[l]))
